@@ -38,6 +38,24 @@ func VerifRun_C15() {
 		src += "local w0 = 1 -- note\n"
 		line++
 	}
+	// helper aliases stacked directly on top of the first class (one comment block holding aliases and a
+	// class), instead of standing in a block of their own below the classes
+	stacked := verifBool("aliasOnClass")
+	aliasText, aliasLines := "", 0
+	switch form {
+	case 1:
+		aliasText, aliasLines = "---@alias M "+c15names[target]+"\n", 1
+	case 4:
+		aliasText, aliasLines = "---@alias M table<B, "+c15names[target]+">\n", 1
+	case 5:
+		aliasText, aliasLines = "---@alias M N\n---@alias N "+c15names[target]+"\n", 2
+	case 6:
+		aliasText, aliasLines = "---@alias M N\n---@alias N M\n", 2
+	}
+	if stacked {
+		src += aliasText
+		line += aliasLines
+	}
 	fieldLine := make([]int, nc)
 	for i := 0; i < nc; i++ {
 		src += "---@class " + c15names[i]
@@ -67,8 +85,6 @@ func VerifRun_C15() {
 	case 0:
 		typ = x
 	case 1:
-		src += "---@alias M " + x + "\n\n"
-		line += 2
 		typ = "M"
 	case 2:
 		typ = x + "[]"
@@ -77,20 +93,18 @@ func VerifRun_C15() {
 		typ = "table<string, " + x + ">"
 		use = "v.k"
 	case 4:
-		src += "---@alias M table<B, " + x + ">\n\n"
-		line += 2
 		typ = "M"
 		use = "v.k"
 	case 5:
-		src += "---@alias M N\n---@alias N " + x + "\n\n"
-		line += 3
 		typ = "M"
 	case 6: // alias cycle, variable indexed as a map
-		src += "---@alias M N\n---@alias N M\n\n"
-		line += 3
 		typ = "M"
 		use = "v.k"
 		aliasCycle = true
+	}
+	if !stacked && aliasLines > 0 {
+		src += aliasText + "\n"
+		line += aliasLines + 1
 	}
 	if above == 1 {
 		src += "local w1 = 1 -- note\n"
